@@ -14,7 +14,7 @@
                                     ep's HandshakeCompleted event; version = the
                                     version field of the long-header (Handshake)
                                     packets ep emitted, iversion = its _version
-     secret      ep label value     one line of ep's key log
+     secrets     ep pairs           ep's key log: <<label, value>> pairs
      terminated  ep code            ep's ConnectionTerminated event
      end         quiescent          end of the run *)
 EXTENDS TlsAgree, TraceBase
@@ -43,7 +43,7 @@ StepT(st, e) ==
   CASE e.ev = "init"      -> T0(CfgOf(e), e.tam, e.fair)
     [] e.ev = "tamper"    -> [st EXCEPT !.tampered[e.ep] = TRUE]
     [] e.ev = "completed" -> [st EXCEPT !.done[e.ep] = TRUE, !.res[e.ep] = ResOf(e)]
-    [] e.ev = "secret"    -> [st EXCEPT !.sec[e.ep] = @ \cup {<<e.label, e.value>>}]
+    [] e.ev = "secrets"   -> [st EXCEPT !.sec[e.ep] = @ \cup {<<e.pairs[i][1], e.pairs[i][2]>> : i \in DOMAIN e.pairs}]
     [] OTHER              -> st
 
 FourSecrets == {"CLIENT_HANDSHAKE_TRAFFIC_SECRET", "SERVER_HANDSHAKE_TRAFFIC_SECRET",
